@@ -89,19 +89,64 @@ fn graph_obs(g: &graphs::Graph, o: &alpha::Outcome) -> Value {
     v
 }
 
-fn replay_graphs(args: &[String]) {
-    if args.len() < 2 {
-        usage();
-    }
-    let lines = read_lines(&args[0]);
-    alpha::install_quiet_panic_hook();
-    let results = par_map(&lines, |_, line| {
+fn replay_graphs_inner(lines: &[String]) -> Vec<String> {
+    par_map(lines, |_, line| {
         let case: Value = serde_json::from_str(line).expect("case json");
         let g = graphs::Graph::from_json(&case);
         let o = alpha::run_single(&g.render(), "case.pn", alpha::Upto::Resolve, false);
         graph_obs(&g, &o).to_string()
-    });
+    })
+}
+
+/// Replays all cases in a child process.  If the child dies (stack overflow, segfault, abort in the code
+/// under test) the cases are replayed again in smaller children down to single cases: the death of
+/// the process is then the observation of that one case, not a tool error.
+fn replay_graphs(args: &[String]) {
+    if args.len() < 2 {
+        usage();
+    }
+    alpha::install_quiet_panic_hook();
+    if args.len() >= 3 && args[2] == "--inner" {
+        write_lines(&args[1], &replay_graphs_inner(&read_lines(&args[0])));
+        return;
+    }
+    let lines = read_lines(&args[0]);
+    let results = replay_graphs_isolated(&lines, &args[1], 0);
     write_lines(&args[1], &results);
+}
+
+fn replay_graphs_isolated(lines: &[String], out_path: &str, depth: usize) -> Vec<String> {
+    replay_isolated("replay-graphs", lines, out_path, depth)
+}
+
+const DIED: &str = "the compiler process died (signal / abort / stack overflow) on this input";
+
+/// Generic form: `sub <in> <out> --inner` replays a file of cases in-process.
+fn replay_isolated(sub: &str, lines: &[String], out_path: &str, depth: usize) -> Vec<String> {
+    if lines.is_empty() {
+        return Vec::new();
+    }
+    let inp = format!("{out_path}.part-{}-{depth}-{}.in", std::process::id(), lines.len());
+    let outp = format!("{inp}.out");
+    write_lines(&inp, lines);
+    let ok = spawn_self(&[sub.to_string(), inp.clone(), outp.clone(), "--inner".to_string()]).is_ok();
+    let res = if ok { read_lines(&outp) } else { Vec::new() };
+    let _ = std::fs::remove_file(&inp);
+    let _ = std::fs::remove_file(&outp);
+    if ok && res.len() == lines.len() {
+        return res;
+    }
+    if lines.len() == 1 {
+        return vec![json!({"ok": false, "stage": "died", "diags": [], "modules": [], "panic": DIED}).to_string()];
+    }
+    // split: 16 parts at the top, halves below
+    let parts = if depth == 0 { 16 } else { 2 };
+    let size = lines.len().div_ceil(parts).max(1);
+    let mut all = Vec::new();
+    for chunk in lines.chunks(size) {
+        all.extend(replay_isolated(sub, chunk, out_path, depth + 1));
+    }
+    all
 }
 
 fn show_graph(args: &[String]) {
@@ -178,13 +223,67 @@ fn record_graphs(args: &[String]) {
     let chunks: usize = args[3].parse::<usize>().unwrap().max(1);
     let max_n: usize = args[4].parse().unwrap();
     alpha::install_quiet_panic_hook();
-    let idx: Vec<usize> = (0..count).collect();
-    let results = par_map(&idx, |_, i| record_graph_one(seed, *i, max_n));
+    if args.len() >= 8 && args[5] == "--range" {
+        // inner form: one JSON array of lines per index
+        let lo: usize = args[6].parse().unwrap();
+        let hi: usize = args[7].parse().unwrap();
+        let idx: Vec<usize> = (lo..hi).collect();
+        let results = par_map(&idx, |_, i| json!(record_graph_one(seed, *i, max_n)).to_string());
+        write_lines(prefix, &results);
+        return;
+    }
+    let results = record_graphs_isolated(args, 0, count, seed, max_n, 0);
     let per = count.div_ceil(chunks).max(1);
     for (c, part) in results.chunks(per).enumerate() {
         let lines: Vec<String> = part.iter().flatten().cloned().collect();
         write_lines(&format!("{prefix}.{c}.ndjson"), &lines);
     }
+}
+
+/// Records the runs lo..hi in a child; if the child dies the range is split down to single runs, and a
+/// run on which the compiler process dies is recorded as its input followed by a `crash` event.
+fn record_graphs_isolated(args: &[String], lo: usize, hi: usize, seed: u64, max_n: usize, depth: usize) -> Vec<Vec<String>> {
+    if lo >= hi {
+        return Vec::new();
+    }
+    let tmp = format!("{}.range-{}-{lo}-{hi}", args[2], std::process::id());
+    let mut a: Vec<String> = args[..5].to_vec();
+    a[2] = tmp.clone();
+    a.extend(["--range".to_string(), lo.to_string(), hi.to_string()]);
+    let mut cmd = vec!["record-graphs".to_string()];
+    cmd.extend(a);
+    let ok = spawn_self(&cmd).is_ok();
+    let res = if ok { read_lines(&tmp) } else { Vec::new() };
+    let _ = std::fs::remove_file(&tmp);
+    if ok && res.len() == hi - lo {
+        return res
+            .iter()
+            .map(|l| serde_json::from_str::<Vec<String>>(l).expect("range output"))
+            .collect();
+    }
+    if hi - lo == 1 {
+        let mut rng = Rng::new(seed, 0xC11A_0000 + lo as u64);
+        let src = graphs::random(&mut rng, max_n).render();
+        return vec![match graphs::project(&src) {
+            Ok(g) => {
+                let mut input = g.to_json();
+                input["ev"] = json!("input");
+                input["prop"] = json!("C11a");
+                vec![input.to_string(), json!({"ev": "crash", "msg": DIED}).to_string()]
+            }
+            Err(e) => vec![json!({"ev": "toolerror", "what": e, "src": src}).to_string()],
+        }];
+    }
+    let parts = if depth == 0 { 16 } else { 2 };
+    let size = (hi - lo).div_ceil(parts).max(1);
+    let mut all = Vec::new();
+    let mut x = lo;
+    while x < hi {
+        let y = (x + size).min(hi);
+        all.extend(record_graphs_isolated(args, x, y, seed, max_n, depth + 1));
+        x = y;
+    }
+    all
 }
 
 // ---------------------------------------------------------------------------------------------
@@ -209,14 +308,18 @@ fn replay_cells(args: &[String]) {
     if args.len() < 2 {
         usage();
     }
-    let lines = read_lines(&args[0]);
     alpha::install_quiet_panic_hook();
-    let results = par_map(&lines, |_, line| {
-        let case: Value = serde_json::from_str(line).expect("case json");
-        let o = alpha::run_single(&positions::render(&case), "case.pn", alpha::Upto::Resolve, false);
-        cell_obs(&o).to_string()
-    });
-    write_lines(&args[1], &results);
+    let lines = read_lines(&args[0]);
+    if args.len() >= 3 && args[2] == "--inner" {
+        let results = par_map(&lines, |_, line| {
+            let case: Value = serde_json::from_str(line).expect("case json");
+            let o = alpha::run_single(&positions::render(&case), "case.pn", alpha::Upto::Resolve, false);
+            cell_obs(&o).to_string()
+        });
+        write_lines(&args[1], &results);
+        return;
+    }
+    write_lines(&args[1], &replay_isolated("replay-cells", &lines, &args[1], 0));
 }
 
 fn show_cell(args: &[String]) {
@@ -340,14 +443,18 @@ fn replay_mods(args: &[String]) {
     if args.len() < 2 {
         usage();
     }
-    let lines = read_lines(&args[0]);
     alpha::install_quiet_panic_hook();
-    let results = par_map(&lines, |_, line| {
-        let case: Value = serde_json::from_str(line).expect("case json");
-        let mods = modsets::from_case(&case);
-        modsets::observe(&mods, false).0.to_string()
-    });
-    write_lines(&args[1], &results);
+    let lines = read_lines(&args[0]);
+    if args.len() >= 3 && args[2] == "--inner" {
+        let results = par_map(&lines, |_, line| {
+            let case: Value = serde_json::from_str(line).expect("case json");
+            let mods = modsets::from_case(&case);
+            modsets::observe(&mods, false).0.to_string()
+        });
+        write_lines(&args[1], &results);
+        return;
+    }
+    write_lines(&args[1], &replay_isolated("replay-mods", &lines, &args[1], 0));
 }
 
 fn show_mods(args: &[String]) {
